@@ -2,6 +2,7 @@ package main
 
 import (
 	"bytes"
+	"encoding/hex"
 	"fmt"
 	"github.com/ldclabs/cose/cose"
 	"github.com/ldclabs/cose/cwt"
@@ -43,6 +44,47 @@ func execMap(op string, a []string) string {
 		}
 		if out2, _ := used.MarshalCBOR(); string(out2) != string(out) {
 			return "ok " + hx(out) + " REUSED-DESTINATION-DIFFERS " + hx(out2)
+		}
+		return "ok " + hx(out)
+	case "map.untext", "map.unjson":
+		// arbitrary octets given to the text / JSON decoders of the label-map types (CoseMap, Key):
+		// hex (between quotes for JSON) around the CBOR form — the two types accept and refuse alike
+		in := unhx(a[0])
+		var m key.CoseMap
+		var kk key.Key
+		var e0, e1 error
+		if op == "map.unjson" {
+			e0, e1 = m.UnmarshalJSON(in), kk.UnmarshalJSON(in)
+		} else {
+			e0, e1 = m.UnmarshalText(in), kk.UnmarshalText(in)
+		}
+		if (e0 == nil) != (e1 == nil) {
+			return fmt.Sprintf("VIEWS-DISAGREE on acceptance: CoseMap=%v Key=%v", e0 == nil, e1 == nil)
+		}
+		if e0 != nil {
+			return "err"
+		}
+		out, err := m.MarshalCBOR()
+		if err != nil {
+			return "err-reencode"
+		}
+		if o1, _ := kk.MarshalCBOR(); string(o1) != string(out) {
+			return "ok " + hx(out) + " VIEWS-DIFFER"
+		}
+		// the text form written back is the lower-case hex of the re-encoded CBOR (quoted for JSON), for each view
+		var t0, t1 []byte
+		if op == "map.unjson" {
+			t0, _ = m.MarshalJSON()
+			t1, _ = kk.MarshalJSON()
+			if string(t0) != `"`+hex.EncodeToString(out)+`"` || string(t1) != string(t0) {
+				return "ok " + hx(out) + " JSON-FORM-IS-NOT-QUOTED-HEX-OF-CBOR " + string(t0)
+			}
+		} else {
+			t0, _ = m.MarshalText()
+			t1, _ = kk.MarshalText()
+			if string(t0) != hex.EncodeToString(out) || string(t1) != string(t0) {
+				return "ok " + hx(out) + " TEXT-FORM-IS-NOT-HEX-OF-CBOR " + string(t0)
+			}
 		}
 		return "ok " + hx(out)
 	case "map.views":
@@ -222,8 +264,15 @@ func mustVal(a []string) any {
 	return v
 }
 
+func min1(n int) int {
+	if n > 0 {
+		return 1
+	}
+	return 0
+}
+
 func genMap(r *rand.Rand, n int) []string {
-	var out []string
+	var out, extra []string // extra: appended after the rest so that the fixed slots below keep their positions
 	scalar := func() string {
 		switch r.Intn(8) {
 		case 0, 1, 2:
@@ -328,6 +377,20 @@ func genMap(r *rand.Rand, n int) []string {
 			b = mutateBytes(r, b)
 		}
 		out = append(out, "map.unmarshal "+hx(b), "map.views "+hx(b))
+		if i%3 == 0 { // the same octets through the text and JSON forms: well-formed hex, and malformed in every small way
+			hs := hex.EncodeToString(b)
+			forms := []string{hs, strings.ToUpper(hs), hs + "0", hs + "zz", " " + hs, hs + "\n", "0x" + hs, "", hs[:len(hs)-min1(len(hs))]}
+			tf := forms[(i/3)%len(forms)]
+			if (i/3)%2 == 1 { // every second one well-formed hex, in either case
+				tf = forms[(i/6)%2]
+			}
+			jforms := []string{`"` + hs + `"`, `"` + strings.ToUpper(hs) + `"`, hs, `"` + hs, hs + `"`, `null`, `""`, `"` + hs + `" `, `'` + hs + `'`, `"` + hs + `0"`, `"\"` + hs + `"`}
+			jf := jforms[(i/3)%len(jforms)]
+			if (i/3)%2 == 1 {
+				jf = jforms[(i/6)%2]
+			}
+			extra = append(extra, "map.untext "+hx([]byte(tf)), "map.unjson "+hx([]byte(jf)))
+		}
 		if len(out)%14 == 0 { // registered claim / header labels holding floats (NumericDate may be a float), tagged values, tagged labels
 			fixed := []string{
 				"a104fb41d954ffc4000000", "a204fb41d954ffc430000005fa4eca9a80", "a106f97c00", "a30418640518650618c8",
@@ -342,5 +405,5 @@ func genMap(r *rand.Rand, n int) []string {
 			out = append(out, "map.tagkeep "+tagged[(len(out)/14)%len(tagged)])
 		}
 	}
-	return out
+	return append(out, extra...)
 }
